@@ -1213,3 +1213,42 @@ register(Obligation(name="C20.interpreters.end_to_end", prop=PROP, engine="B", b
                     functions=["eminus.scf:SCF.run", "eminus.io.*", "eminus.orbitals:cube_writer"], budget={"quick": 600, "thorough": 1800},
                     doc="bounded: the same script in separate interpreters under different PYTHONHASHSEED and FFT worker counts (two-species molecule, GTH and "
                         "all-electron potentials, random and pseudo guesses, every text writer)"))
+
+
+# ------------------------------------------------------------------------------------------------
+# S5: the thread count reaches the FFT only as the `workers` argument (same algorithm for every count)
+# ------------------------------------------------------------------------------------------------
+
+
+class ThreadUniform:
+    def __call__(self, ob, tier, seed):
+        tree = ast.parse(source_of("eminus.backend"))
+        uses = 0
+        for fn in tree.body:
+            if not isinstance(fn, ast.FunctionDef):
+                continue
+            par = _parents(fn)
+            for n in ast.walk(fn):
+                if isinstance(n, ast.Attribute) and n.attr in ("threads", "_threads") and _dotted(n.value).endswith("config"):
+                    uses += 1
+                    p = par.get(n)
+                    if not (isinstance(p, ast.keyword) and p.arg == "workers"):
+                        wit = dict(function=fn.name, line=n.lineno)
+                        ok, info = self.replay(wit)
+                        return Result(REFUTED, backend="ast-dataflow", witness=wit, replayed=ok, replay_info=info,
+                                      detail=f"eminus.backend.{fn.name}: config.threads is used other than as the `workers` argument of the FFT (line {n.lineno}): the "
+                                             "computation itself depends on the thread count")
+        if uses == 0:
+            return Result(UNDECIDED, backend="ast-dataflow", detail="config.threads is not used in eminus.backend (vacuous)")
+        return Result(DISCHARGED, backend="ast-dataflow", stats=dict(uses=uses),
+                      detail="config.threads reaches the transforms only as scipy.fft's `workers` argument; bit-identity of scipy.fft across worker counts is an assumed contract")
+
+    def replay(self, wit):
+        a = run_scenario("end2end", hashseed="0", threads="1", timeout=900)
+        b = run_scenario("end2end", hashseed="0", threads="4", timeout=900)
+        d = compare_runs(a, b, bitwise=True)
+        return bool(d), dict(check="end-to-end scenario with 1 and 4 FFT workers, bitwise", differences=d[:4])
+
+
+register(Obligation(name="C20.backend.thread_count_only_as_workers", prop=PROP, engine="Z", functions=["eminus.backend:fftn", "eminus.backend:ifftn"], run=ThreadUniform(),
+                    assumes=("fft",), doc="the configured thread count flows only into the `workers` argument of scipy.fft (the algorithm does not depend on it)"))
